@@ -209,9 +209,30 @@ func TestVerif_C19(t *testing.T) {
 			if e.Kind == "span" || (e.Kind == "probe" && rng.Bool()) {
 				x := traces[rng.Intn(len(traces))]
 				e.TraceID, e.Owner, e.Processed, e.Kept = x.id, x.owner, x.processed, x.kept
-				e.Data = append(e.Data, KV(verifkit.Pick(rng, "trace.trace_id", "traceId", "meta.trace_id"), VStr(x.id)))
-				if rng.Bool() {
+				idField := verifkit.Pick(rng, "trace.trace_id", "traceId", "meta.trace_id")
+				e.Data = append(e.Data, KV(idField, VStr(x.id)))
+				// the OTHER configured trace-ID field present but empty (either rank): an empty
+				// string is not an ID, the event is still a span of trace x
+				if idField != "meta.trace_id" && rng.Chance(0.35) {
+					other := "traceId"
+					if idField == "traceId" {
+						other = "trace.trace_id"
+					}
+					e.Data = append(e.Data, KV(other, VStr("")))
+					run.Count("spans_with_an_empty_string_trace_id_field_at_another_rank", 1)
+				}
+				switch rng.Intn(4) {
+				case 0, 1:
 					e.Data = append(e.Data, KV(verifkit.Pick(rng, "trace.parent_id", "parentId"), VStr("p"+rng.Hex(4))))
+				case 2:
+					e.Data = append(e.Data, KV(verifkit.Pick(rng, "trace.parent_id", "parentId"), VStr("")))
+				}
+			} else if e.Kind == "event" && rng.Chance(0.25) {
+				// empty-string ID fields do not put an event into a trace
+				for _, f := range []string{"trace.trace_id", "traceId"} {
+					if rng.Bool() {
+						e.Data = append(e.Data, KV(f, VStr("")))
+					}
 				}
 			}
 			if e.Kind == "probe" {
